@@ -109,7 +109,7 @@ func (m *feedModel) text() string {
 
 type presentation struct {
 	ColOrder     int  // 0 identity, 1 reversed, 2 rotated by one
-	ExtraCol     int  // 0 none, 1 first, 2 middle, 3 last
+	ExtraCol     int  // 0 none, 1 first, 2 middle, 3 last, 4: seventy unknown columns first (every known column beyond index 64)
 	ExtraFile    bool // an unknown member in the archive
 	ReverseFiles bool
 	Deflate      bool
@@ -149,7 +149,10 @@ func renderCSV(t *table, p presentation) []byte {
 		}
 	}
 	extraAt := -1
+	nExtra := 1
 	switch p.ExtraCol {
+	case 4:
+		extraAt, nExtra = 0, 70
 	case 1:
 		extraAt = 0
 	case 2:
@@ -169,7 +172,13 @@ func renderCSV(t *table, p presentation) []byte {
 		var f []string
 		for k := 0; k <= len(idx); k++ {
 			if k == extraAt {
-				f = append(f, csvField(extra, p.QuoteAll))
+				for x := 0; x < nExtra; x++ {
+					e := extra
+					if x > 0 {
+						e = fmt.Sprintf("%s%d", extra, x)
+					}
+					f = append(f, csvField(e, p.QuoteAll))
+				}
 			}
 			if k < len(idx) {
 				f = append(f, csvField(cells(idx[k]), p.QuoteAll))
